@@ -440,7 +440,7 @@ def standin(run, seed, n):
                 match = datetime.date(my, mm, md)
             except ValueError:
                 continue
-            for age in (8, 10, 11, 13, 17, 20, 35, 100):
+            for age in list(range(6, 23)) + [34, 35, 36, 39, 40, 41, 100]:      # both sides of every group boundary
                 for bm, bd in ((2, 28), (2, 29), (3, 1), (8, 9), (9, 8), (8, 31), (9, 1), (12, 31), (1, 1), (mm, md), (6, 12), (12, 6)):
                     try:
                         pairs.append((datetime.date(my - age, bm, bd), match))
@@ -452,6 +452,25 @@ def standin(run, seed, n):
         pairs.append((b, match))
     chunks = [pairs[i::16] for i in range(16)]
     ev = bad = 0
+    # prior_date itself on every day of leap and common years (a fixed number of days is not a year)
+    pd_bad = None
+    for y in (2015, 2016, 2017, 2000, 2100, 2096):
+        d = datetime.date(y, 1, 1)
+        while d.year == y:
+            ev += 1
+            try:
+                r_ = m.prior_date(d, 8, 31)
+                got = (r_.year, r_.month, r_.day)
+            except Exception as e:
+                got = type(e).__name__
+            if got != tuple(S.prior_31_aug((d.year, d.month, d.day))) and pd_bad is None:
+                pd_bad = (d, got)
+            d += datetime.timedelta(days=1)
+    if pd_bad:
+        d, got = pd_bad
+        bad += 1
+        run.violation('standin/prior_date', dict(job=['prior', []], model={'match_y': d.year, 'match_m': d.month, 'match_d': d.day},
+                                                 call='prior_date(%s, 8, 31)' % d, observed=got, required=str(S.prior_31_aug((d.year, d.month, d.day)))), True)
     for r in report.pool_map(_standin_chunk, chunks):
         if isinstance(r, dict):
             run.checker_error(r['_crash'])
